@@ -87,7 +87,15 @@ def run_unit(unit, keep=False, rlimit=None, repo=REPO, extra_verus_args="", rend
             cmd.append("--lib")
         res["checker_cmd"] = ("RUSTC_WORKSPACE_WRAPPER=/verif/bin/vx-rustc VX_TARGET_CRATE=%s cargo +%s build -p %s --offline "
                               "(wrapper execs: verus <cargo's rustc args> --output-json --time)" % (u.crate, TOOLCHAIN, u.package))
-        p = subprocess.run(cmd, cwd=ws, env=env, capture_output=True, text=True)
+        # one build at a time per target directory: two checks started together would otherwise wait on cargo's own
+        # lock, and the loser can come back with a "fresh" build for which the verifier never ran
+        import fcntl
+        os.makedirs(TARGET, exist_ok=True)
+        with open(os.path.join(TARGET, ".vx-build.lock"), "w") as lockf:
+            fcntl.flock(lockf, fcntl.LOCK_EX)
+            p = subprocess.run(cmd, cwd=ws, env=env, capture_output=True, text=True)
+            if (not os.path.exists(jout) or os.path.getsize(jout) == 0) and "Blocking waiting for file lock" in (p.stderr or ""):
+                p = subprocess.run(cmd, cwd=ws, env=env, capture_output=True, text=True)
         diags = []
         other_crate_error = False
         for line in p.stdout.split("\n"):
@@ -186,13 +194,19 @@ def run_unit(unit, keep=False, rlimit=None, repo=REPO, extra_verus_args="", rend
                           "could not prove termination", "unreachable", "loop invariant", "possible cast",
                           "failed to prove", "cannot show", "rlimit", "Resource limit", "panic", "unwrap",
                           "constructed value may fail to meet its declared type invariant", "index out of bounds", "unable to prove", "fails to satisfy",
-                          "possible index", "possible slice", "may be out of bounds", "is not satisfied")
+                          "possible index", "possible slice", "may be out of bounds", "is not satisfied",
+                          "precondition not met", "index in bounds", "postcondition not met", "invariant not met")
             if any(v in msg for v in verif_msgs):
                 e["kind"] = "verification"
                 if "rlimit" in msg or "Resource limit" in msg:
                     e["kind"] = "rlimit"
             elif msg.startswith("aborting due to") or msg.startswith("could not compile"):
                 continue
+            elif res["functions"] and not d.get("code") and not vr.get("encountered-vir-error"):
+                # the SMT stage ran (per-function results exist) and rustc gave the diagnostic no error code: this is a
+                # failed obligation whose wording is not in the list above, not a front-end rejection
+                e["kind"] = "verification"
+                e["unlisted_message"] = True
             else:
                 e["kind"] = "frontend"
                 e["rendered"] = (d.get("rendered") or "")[:1500]
